@@ -160,14 +160,12 @@ Definition is_directive (d : node) := match d with NDirective _ => true | _ => f
 Definition is_procinst (d : node) := match d with NProcInst _ _ => true | _ => false end.
 Definition at_most_one (p : node -> bool) (l : list node) : bool := length (filter p l) <=? 1.
 
-(* [alone]: text only in elements without children (the sub-domain on which the code works) *)
-Fixpoint node_ok (alone : bool) (d : node) : bool :=
+Fixpoint node_ok (d : node) : bool :=
   match d with
   | NElem nm a text kids =>
       name_ok nm && attrs_ok a && text_ok text
       && at_most_one is_comment kids && at_most_one is_directive kids && at_most_one is_procinst kids
-      && (negb alone || negb (nonempty (trim xml_ws text)) || negb (match kids with [] => false | _ => true end))
-      && forallb (node_ok alone) kids
+      && forallb node_ok kids
   | _ => true
   end.
 
@@ -175,9 +173,7 @@ Definition is_elem (d : node) : bool := match d with NElem _ _ _ _ => true | _ =
 
 (* the quantifier of C04: one root element; <= 1 comment, directive, PI per element; text alone or
    before the child elements (built into [node]); values as in C02 *)
-Definition dom04 (d : node) : bool := is_elem d && node_ok false d.
-(* the same with "text alone in its element" only *)
-Definition dom04_alone (d : node) : bool := is_elem d && node_ok true d.
+Definition dom04 (d : node) : bool := is_elem d && node_ok d.
 End Dom.
 
 (* the option states the property is about: a fresh process, with or without XMLEscapeChars(true) *)
